@@ -14,6 +14,16 @@ impl Flags {
         assert forall|i: u8| 0 <= i < 8 implies !#[trigger] bit(0u8, i) by { assert((0u8 >> i) & 1 == 0) by(bit_vector); }
         Flags { bits: 0 } }
     pub fn bits(&self) -> (r: u8) ensures r == self.bits { self.bits }
+    pub fn is_empty(&self) -> (r: bool) ensures r == (self.bits == 0), r == (forall|i: u8| 0 <= i < 8 ==> !#[trigger] self.has(i))
+    {
+        proof {
+            let b = self.bits;
+            if b == 0 { assert forall|i: u8| 0 <= i < 8 implies !#[trigger] self.has(i) by { assert(b == 0u8 ==> (b >> i) & 1 == 0) by(bit_vector); } }
+            else { assert(b != 0u8 ==> ((b >> 0u8) & 1 == 1 || (b >> 1u8) & 1 == 1 || (b >> 2u8) & 1 == 1 || (b >> 3u8) & 1 == 1 || (b >> 4u8) & 1 == 1 || (b >> 5u8) & 1 == 1 || (b >> 6u8) & 1 == 1 || (b >> 7u8) & 1 == 1)) by(bit_vector);
+                   assert(self.has(0) || self.has(1) || self.has(2) || self.has(3) || self.has(4) || self.has(5) || self.has(6) || self.has(7)); }
+        }
+        self.bits == 0
+    }
     // bitflags 2.x: from_bits rejects any bit that is not a named flag; _truncate drops such bits; _retain keeps them
     pub fn from_bits(bits: u8) -> (r: Option<Flags>)
         ensures r == (if bits & !Flags::VX_ALL.bits == 0 { Some(Flags { bits }) } else { None::<Flags> })
